@@ -76,6 +76,15 @@ pub fn stress_case(case: &Value, dispatch: Dispatch, r: &mut Report) {
     }
     *r.counts.entry("stress_calls".into()).or_insert(0) += calls.load(std::sync::atomic::Ordering::Relaxed);
     r.count("stress_trial");
+    // the schedule in which all calls are at their deepest point at the same time
+    if let Some(p) = case.get("parked").filter(|p| p.is_object()) {
+        let depth = p["depth"].as_u64().unwrap_or(150);
+        let deviations = crate::deep_case::parked_calls(threads, depth);
+        *r.counts.entry("parked_calls".into()).or_insert(0) += (4 * threads) as u64;
+        for d in deviations.into_iter().take(3) {
+            r.finding("stress_parked", &["C18"], d);
+        }
+    }
     if panicked > 0 {
         r.finding("stress_panic", &["C18"], json!({"threads_panicked": panicked}));
     }
